@@ -12,13 +12,15 @@ for name in sorted(os.listdir(V + "/seeded")):
         continue
     meta = json.load(open(mp))
     if meta.get("confirmed") and (not only or name in only or meta["property"] in only):
-        subprocess.run("git -C /repo apply %s/patch.diff" % d, shell=True, check=True)
+        scratch = tempfile.mkdtemp(prefix="reeval-")
+        subprocess.run("rsync -a --exclude target --exclude .git /repo/ %s/" % scratch, shell=True, check=True)
+        subprocess.run("cd %s && patch -p1 -s < %s/patch.diff" % (scratch, d), shell=True, check=True)
         fired = {}
         try:
             for c in man["checks"]:
                 cid = c["property_id"]
                 evd = tempfile.mkdtemp()
-                p = subprocess.run(c["quick_cmd"], shell=True, cwd=V, env=dict(os.environ, VERIF_EVIDENCE_DIR=evd), stdout=subprocess.PIPE, text=True)
+                p = subprocess.run(c["quick_cmd"], shell=True, cwd=V, env=dict(os.environ, VERIF_EVIDENCE_DIR=evd, VERIF_REPO=scratch), stdout=subprocess.PIPE, text=True)
                 if p.returncode != 0:
                     try:
                         fired[cid] = json.load(open(os.path.join(evd, cid + ".json")))["coverage"].get("new_violations", [])[:6]
@@ -26,7 +28,7 @@ for name in sorted(os.listdir(V + "/seeded")):
                         fired[cid] = ["?"]
                 shutil.rmtree(evd, ignore_errors=True)
         finally:
-            subprocess.run("git -C /repo checkout -- .", shell=True)
+            shutil.rmtree(scratch, ignore_errors=True)
         if "checks_that_report_it_first_run" not in meta:
             meta["checks_that_report_it_first_run"] = meta.get("checks_that_report_it", {})
             meta["reported_by_claimed_check_first_run"] = meta.get("reported_by_claimed_check", False)
